@@ -53,16 +53,20 @@ def file_hash(p):
     return h.hexdigest()[:20]
 
 
+def trailer_of(ci, suffix, cs):
+    """Bytes placed behind the value: none for the argument-type shortcut's Args structs under retention (designed for the end
+    of the buffer) and for every third case (a value may also be the LAST thing on its buffer), else three sentinel bytes."""
+    if (suffix == "k" and cs["isarg"]) or ci % 3 == 0:
+        return []
+    return TRAILER
+
+
 def results(tier, seed):
     """(cases, responses): responses[(case index, unit suffix '', 'k', proto, mode)] -> worker response."""
     ss, units = prepare(tier, seed)
     failed = [u for u in units if not u.ok]
     cpath, cst = cases_for(tier, seed, ss)
     cases = c.read_ndjson(cpath)
-    key = file_hash(gen.gworker()) + "-" + file_hash(cpath)
-    rp = os.path.join(c.OUT, "cache", f"genresults-{tier}-{key}.json")
-    if os.path.exists(rp):
-        return cases, json.load(open(rp)), units, cst
     reqs, index = [], []
     rid = 0
     async_modes = ["pending"] if tier == "quick" else ["whole", "bytewise", "pending", "rnd:7", "rnd:99"]
@@ -72,7 +76,7 @@ def results(tier, seed):
             path = gen.find_type(units, uid, cs["ty"])
             if path is None:
                 continue
-            trailer = [] if (suffix == "k" and cs["isarg"]) else TRAILER
+            trailer = trailer_of(ci, suffix, cs)
             for proto in PROTOS:
                 enc = cs["bin"] if proto in ("bin", "unsafe") else cs["binle"] if proto == "binle" else cs["cs"]
                 reqs.append({"id": rid, "ty": path, "proto": proto, "mode": "sync", "op": "roundtrip", "input": enc + trailer})
@@ -88,6 +92,11 @@ def results(tier, seed):
                     reqs.append({"id": rid, "ty": path, "proto": proto, "op": "default"})
                     index.append((ci, suffix, proto, "default"))
                     rid += 1
+    # responses are a function of (worker binary built from the working tree, requests): cached on exactly that
+    key = file_hash(gen.gworker()) + "-" + hashlib.sha256(json.dumps(reqs).encode()).hexdigest()[:20]
+    rp = os.path.join(c.OUT, "cache", f"genresults-{tier}-{key}.json")
+    if os.path.exists(rp):
+        return cases, json.load(open(rp)), units, cst
     res = gen.run_worker(reqs, tag="gen")
     out = {}
     for i, k in enumerate(index):
